@@ -86,8 +86,13 @@ let dec_rel = function
           | "e1" :: e :: r -> (Some (unh e), r)
           | _ -> failwith "bad epoch" in
         (match r with
-         | ver :: w3 :: r ->
-           (Some { v_ws0 = unh w0; v_ws1 = unh w1; v_op = dec_op op; v_ws2 = unh w2; v_epoch = e; v_ver = unh ver; v_ws3 = unh w3 }, r)
+         | ver :: n :: r ->
+           let (more, r) = take_n (int_of_string n) (function s :: r -> (unh s, r) | _ -> failwith "bad piece") r [] in
+           (match r with
+            | w3 :: r ->
+              (Some { v_ws0 = unh w0; v_ws1 = unh w1; v_op = dec_op op; v_ws2 = unh w2; v_epoch = e; v_ver = unh ver;
+                      v_more = more; v_ws3 = unh w3 }, r)
+            | _ -> failwith "bad version")
          | _ -> failwith "bad version")
       | _ -> failwith "bad version" in
     let (a, r) = match r with
